@@ -1,4 +1,4 @@
-CONSTANTS MaxTask = 4  MaxId = 17  Parts = {"data1", "data2", "data3"}  MutexParts = {}
+CONSTANTS MaxTask = 4  MaxId = 17  Parts = {"data1_1", "data1_2", "data1_3", "data2_1", "data2_2", "data2_3", "data3_1", "data3_2", "data3_3"}  MutexParts = {}
 SPECIFICATION TraceSpec
 POSTCONDITION Accepted
 CHECK_DEADLOCK FALSE
